@@ -1496,7 +1496,7 @@ func ruleElementwise(w *World, r *Report, fn string, pidx int) {
 // an accumulating method): an element dropped on some path makes the result
 // depend on what earlier elements happened to register.
 func ruleNoSkip(w *World, r *Report, fn string) {
-	r.Rule("NOSKIP", "every iteration of every loop of the merge pipeline records its element (append, map insert or HighSpatialID.Merge) before it returns to the loop header: no input ID, unit or group is silently dropped depending on the state built from earlier elements")
+	r.Rule("NOSKIP", "every iteration of every loop of the listed function (merge pipeline, zoom change, pair conversions) records its element (append, map insert or HighSpatialID.Merge) before it returns to the loop header: no input ID, unit or group is silently dropped depending on the state built from earlier elements")
 	f := lookupByName(w, fn)
 	if f == nil {
 		r.add("NOSKIP", fn, "?", Unresolved, "function not found")
@@ -1512,6 +1512,13 @@ func ruleNoSkip(w *World, r *Report, fn string) {
 				return true
 			}
 			if g := calleeOf(x); g != nil && isSetter(w, g) {
+				// re-initialising a scratch object the function itself allocated
+				// (s := &T{}; s.Reset(id)) records nothing
+				if len(x.Call.Args) > 0 {
+					if _, scratch := resolve(x.Call.Args[0]).(*ssa.Alloc); scratch {
+						return false
+					}
+				}
 				return true
 			}
 			// a module helper that inserts into a map it is handed (register(set, key))
@@ -1633,6 +1640,30 @@ func ruleNoSkip(w *World, r *Report, fn string) {
 					}
 				}
 			}
+			// a hit in a seen-list (slices.Contains(done, key) with `done = append(done, key)` on
+			// the other side, same loop level) is the same idiom with a list
+			if c, ok := cv.(*ssa.Call); ok && (calleeIs(c, "slices", "Contains") || (calleeOf(c) != nil && calleeOf(c).Name() == "Include" && w.InModule(calleeOf(c)))) && len(c.Call.Args) == 2 {
+				lst := c.Call.Args[0]
+				found := false
+				instrs(f, func(in2 ssa.Instruction) {
+					ap, ok := in2.(*ssa.Call)
+					if !ok || builtinName(ap) != "append" || found {
+						return
+					}
+					if !sameListVar(ap, lst) {
+						return
+					}
+					elems, _ := appendedElems(ap)
+					for _, e := range elems {
+						if equivValue(e, c.Call.Args[1]) && innermostLoop(nloops, ap.Block()) == innermostLoop(nloops, c.Block()) {
+							found = true
+						}
+					}
+				})
+				if found {
+					return neg, true
+				}
+			}
 			// if register(set, element) { record }: a helper with the shape "false on hit;
 			// insert and true on miss"
 			if c, ok := cv.(*ssa.Call); ok && calleeOf(c) != nil && w.InModule(calleeOf(c)) && missThenInsertHelper(calleeOf(c)) {
@@ -1641,6 +1672,15 @@ func ruleNoSkip(w *World, r *Report, fn string) {
 			return false, false
 		}
 		reach := simulate(body, stop, denseSkip)
+		if os.Getenv("SID_DEBUG_NOSKIP") != "" {
+			fmt.Fprintln(os.Stderr, "NOSKIP", key, "header", header.Index, "body", body.Index)
+			for b := range stop {
+				fmt.Fprintln(os.Stderr, "  stop", b.Index)
+			}
+			for b := range reach {
+				fmt.Fprintln(os.Stderr, "  reach", b.Index)
+			}
+		}
 		if reach[header] {
 			r.add("NOSKIP", key, w.Pos(header.Instrs[0].Pos()), Violated, "an iteration can return to the loop header without recording its element (the element is dropped on that path)")
 		} else {
@@ -2141,4 +2181,147 @@ func seenLeavesLoop(w *World, f *ssa.Function) string {
 		}
 	}
 	return ""
+}
+
+// ---------------------------------------------------------------- UNTRIMMED
+
+// ruleUntrimmed: a list created with a non-zero length (make([]T, n)), filled
+// through a separate counter that some iteration of the filling loop does not
+// advance (an element is skipped), and then used as a whole -- never cut to
+// the counter -- still holds zero values in its unfilled tail: they are
+// reported as if they were elements.
+func ruleUntrimmed(w *World, r *Report, in map[*ssa.Function]bool) {
+	r.Rule("UNTRIMMED", "a list made with a non-zero length and filled through a counter that an iteration of the filling loop can leave unchanged (a skipped element) is cut to the counter before it is used as a whole; otherwise the zero values of the unfilled tail are reported as elements")
+	for _, f := range w.ModFuncs {
+		if f.Synthetic != "" || f.Blocks == nil {
+			continue
+		}
+		can := w.IsCanary(f)
+		if !can && (in == nil || !in[f]) {
+			continue
+		}
+		name := w.FuncName(f)
+		loops := naturalLoops(f)
+		ord := 0
+		instrs(f, func(ins ssa.Instruction) {
+			ms, ok := ins.(*ssa.MakeSlice)
+			if !ok || ms.Referrers() == nil {
+				return
+			}
+			if c, isC := constInt(ms.Len); isC && c == 0 {
+				return
+			}
+			var stores []*ssa.IndexAddr
+			cut, whole := false, ""
+			for _, ref := range *ms.Referrers() {
+				switch x := ref.(type) {
+				case *ssa.IndexAddr:
+					if x.Referrers() != nil {
+						for _, r2 := range *x.Referrers() {
+							if st, isSt := r2.(*ssa.Store); isSt && st.Addr == ssa.Value(x) {
+								stores = append(stores, x)
+							}
+						}
+					}
+				case *ssa.Slice:
+					if x.High != nil {
+						cut = true
+					}
+				case *ssa.DebugRef:
+				case *ssa.Call:
+					if bn := builtinName(x); bn == "len" || bn == "cap" {
+						continue
+					}
+					whole = shortInstr(x)
+				case *ssa.Return, *ssa.Store, *ssa.MakeInterface, *ssa.Phi:
+					whole = shortInstr(x.(ssa.Instruction))
+				}
+			}
+			if len(stores) == 0 || cut || whole == "" {
+				return
+			}
+			// every store goes through a counter (phi advanced by one), not through the
+			// induction variable of the loop it sits in
+			skipped := ""
+			for _, ia := range stores {
+				phi, isPhi := resolve(ia.Index).(*ssa.Phi)
+				if !isPhi {
+					return
+				}
+				stepped := false
+				for _, e := range phi.Edges {
+					if b, ok := resolve(e).(*ssa.BinOp); ok && b.Op == token.ADD {
+						// advanced exactly where the store happens (the induction variable of the
+						// loop is advanced in the loop's own step block instead)
+						if c, ok := constInt(b.Y); ok && c == 1 && reachesPhi(b.X, phi, 0) && (b.Block() == ia.Block() || ia.Block().Dominates(b.Block())) {
+							stepped = true
+						}
+					}
+				}
+				if !stepped {
+					return
+				}
+				l := innermostLoop(loops, ia.Block())
+				if l == nil {
+					return
+				}
+				// an iteration of the innermost loop that comes back to the header without the store
+				for _, s := range l.Header.Succs {
+					if !l.Blocks[s] || s == l.Header {
+						continue
+					}
+					reach := reachableFrom(s, map[*ssa.BasicBlock]bool{ia.Block(): true, l.Header: true})
+					for b := range reach {
+						for _, s2 := range b.Succs {
+							if s2 == l.Header && l.Blocks[b] {
+								skipped = w.Pos(b.Instrs[len(b.Instrs)-1].Pos())
+							}
+						}
+					}
+				}
+			}
+			ord++
+			key := fmt.Sprintf("UNTRIMMED / %s / list#%d", name, ord)
+			if skipped != "" {
+				r.Add(Obligation{Rule: "UNTRIMMED", Key: key, Pos: w.Pos(ms.Pos()), Status: Violated, Detail: "the list is made with its full length, an iteration of the filling loop can skip the store without advancing the counter, and the list is then used whole (" + whole + "): the unfilled tail holds zero values", Canary: can})
+			} else {
+				r.Add(Obligation{Rule: "UNTRIMMED", Key: key, Pos: w.Pos(ms.Pos()), Status: Discharged, Detail: "every iteration of the filling loop stores one element", Canary: can})
+			}
+		})
+	}
+}
+
+// reachesPhi: v is phi itself, possibly through other phis.
+func reachesPhi(v ssa.Value, phi *ssa.Phi, depth int) bool {
+	v = resolve(v)
+	if v == ssa.Value(phi) {
+		return true
+	}
+	if p, ok := v.(*ssa.Phi); ok && depth < 4 {
+		for _, e := range p.Edges {
+			if reachesPhi(e, phi, depth+1) {
+				return true
+			}
+		}
+	}
+	return false
+}
+
+// sameListVar: the append feeds the variable whose current value is lst (the
+// two are linked through the phi web of one source variable).
+func sameListVar(ap *ssa.Call, lst ssa.Value) bool {
+	ai := appendChain(ap)
+	li := phiLeaves(lst)
+	for _, l := range li {
+		l = resolve(l)
+		if l == ssa.Value(ap) {
+			return true
+		}
+		for _, b := range ai.Bases {
+			if resolve(b) == l {
+				return true
+			}
+		}
+	}
+	return false
 }
